@@ -83,6 +83,15 @@ class _FakeTestState:
 import copy
 
 
+class _NullLogger:
+  """Phase logger stand-in: the 'already terminal' branch of _finalize_measurements only logs."""
+
+  def exception(self, *a, **k):
+    pass
+
+  debug = info = warning = error = critical = exception
+
+
 def _template_phase(test):
   pass
 
@@ -405,13 +414,16 @@ def w_history_override(lo: int, mlo: int, mhi: int, hi: int, v0: int, v1: int) -
   return not (m0.outcome is MS.Outcome.FAIL and m0.measured_value.value == v1 * 2 and _marg(lo, mlo, mhi, hi, v0 * 2))
 
 
-@cond(timeout=600)
+@cond(timeout=600, split={'end': range(4)})
 def c_two_dimensioned_finalize(lo: int, hi: int, raise_first: bool, set1: bool, set2: bool, set3: bool,
-                               v1: int, v2: int, v3: int, order: bool) -> bool:
+                               v1: int, v2: int, v3: int, order: bool, end: int) -> bool:
   """
   pre: lo <= hi
+  pre: 0 <= end <= 3
   post: _
   """
+  # end: how the phase body ended - 0 normally (CONTINUE), 1 returned STOP, 2 raised, 3 timed out.  Whatever
+  # the result, no measurement may leave the phase PARTIALLY_SET and a terminal result is never overwritten.
   # three dimensioned measurements declared in order; the first one's validator may raise at phase end
   ms = []
   for i in range(3):
@@ -423,7 +435,7 @@ def c_two_dimensioned_finalize(lo: int, hi: int, raise_first: bool, set1: bool, 
     ms.append(m)
   phase = copy.copy(_PHASE_TEMPLATE)
   phase.measurements = ms
-  ps = TS.PhaseState.from_descriptor(phase, _FakeTestState(False), None)
+  ps = TS.PhaseState.from_descriptor(phase, _FakeTestState(False), _NullLogger())
   coll = MS.Collection(ps.measurements)
   todo = [(0, set1, v1), (1, set2, v2), (2, set3, v3)]
   if order:
@@ -431,9 +443,19 @@ def c_two_dimensioned_finalize(lo: int, hi: int, raise_first: bool, set1: bool, 
   for i, on, v in todo:
     if on:
       coll['d%d' % i][0] = v
-  ps.result = PE.PhaseExecutionOutcome(PD.PhaseResult.CONTINUE)
+  if end == 0:
+    res0 = PE.PhaseExecutionOutcome(PD.PhaseResult.CONTINUE)
+  elif end == 1:
+    res0 = PE.PhaseExecutionOutcome(PD.PhaseResult.STOP)
+  elif end == 2:
+    res0 = PE.PhaseExecutionOutcome(PE.ExceptionInfo(RuntimeError, RuntimeError('body failed'), None))
+  else:
+    res0 = PE.PhaseExecutionOutcome(None)
+  ps.result = res0
   ps._finalize_measurements()
   reach()
+  if end != 0 and ps.result is not res0:          # the body's terminal result stands
+    return False
   for i, on, v in todo:
     m = ps.measurements['d%d' % i]
     if m.outcome is MS.Outcome.PARTIALLY_SET:      # no measurement leaves a phase PARTIALLY_SET
@@ -448,4 +470,6 @@ def c_two_dimensioned_finalize(lo: int, hi: int, raise_first: bool, set1: bool, 
       exp = 'PASS' if lo <= v <= hi else 'FAIL'
     if m.outcome.name != exp:
       return False
+  if end != 0:
+    return True
   return bool(ps.result.raised_exception) == bool(raise_first and set1)
